@@ -85,6 +85,11 @@ def run_cli(text, opts=(), timeout=60, fmt='-bl', extra_files=None, infile=None)
         finally:
             signal.alarm(0)
         res['stdout'] = buf.getvalue()
+        res['csv'] = {}
+        for fn_ in sorted(os.listdir(d)):
+            if fn_.endswith('.csv'):
+                with open(os.path.join(d, fn_)) as f:
+                    res['csv'][fn_] = f.read()
         res['files'] = sorted(os.listdir(d))
         outs = [f for f in os.listdir(d) if 'optimized' in f]
         if outs:
